@@ -261,6 +261,9 @@ def remove_is_exhaustive(ctx, R, P, ci, accept_shadow_counter: bool) -> None:
             continue
         n += 1
         scanned = any(e.kind == "loop" and "self._queue" in e.text for e in p.evs) and not any(e.kind == "final_iter" for e in p.evs)
+        cc = p.conds()
+        empty = cc.get("0 < len(self._queue)") is False or cc.get("len(self._queue) > 0") is False or cc.get("len(self._queue) == 0") is True or cc.get("self._queue") is False or cc.get("len(self._queue)") is False
+        scanned = scanned or empty  # nothing to scan
         if scanned:
             ctx.ok(R, f"{CLS}.remove gives up only after scanning the live deque [{p.sig()[:50]}]", rm.loc)
             continue
@@ -631,8 +634,11 @@ def run(ctx) -> None:
                         ndel += 1
                         k = e.extra.get("key", "")
                         live = k.startswith("$elem(enumerate(self._queue))")
+                        # ... or a counter of a while loop bounded by the live length: `while i < len(self._queue): ... del self._queue[i]`
+                        mcnt = re.fullmatch(r"(\w+) < len\(self\._queue\)", loop_iter or "")
+                        counted = bool(mcnt) and re.fullmatch(rf"{mcnt.group(1)}@L\d+", k) is not None
                         ctx.check(
-                            live and not rel and loop_iter == "enumerate(self._queue)",
+                            (live and not rel and loop_iter == "enumerate(self._queue)") or (counted and not rel),
                             RA,
                             f"{CLS}.{m} :: {e.raw}",
                             f"the index `{k[:60]}` was not obtained from the live deque inside this critical section (found over `{loop_iter}`, lock released in between: {rel or not live}): "
